@@ -161,6 +161,7 @@ type LibCase struct {
 	Seed     int64       `json:"seed"`
 	Flag     bool        `json:"flag,omitempty"`
 	Algo     int         `json:"algo,omitempty"`
+	Indexed  bool        `json:"indexed,omitempty"` // the first tree was indexed (used) before the scenario
 }
 
 var scenarios = []string{"gen-uniform", "gen-yule", "gen-caterpillar", "gen-balanced", "resolve", "shuffle", "rotate", "acr", "asr-nucl", "asr-protein",
@@ -219,6 +220,11 @@ func once(c LibCase) (string, error) {
 	}
 	t := ts[0]
 	tips := c.Trees[0].Tips()
+	if c.Indexed {
+		if err := t.ReinitIndexes(); err != nil {
+			return "", err
+		}
+	}
 	switch c.Scenario {
 	case "resolve":
 		t.Resolve()
@@ -374,7 +380,16 @@ func once(c LibCase) (string, error) {
 		}
 		return t.Newick(), nil
 	case "remove-tips":
-		if err := t.RemoveTips(c.Flag, tips[1], tips[3], tips[5], tips[7]); err != nil {
+		rm := []string{tips[1], tips[3], tips[5], tips[7]}
+		if c.Algo >= 1 {
+			// a run of neighbouring tips (whole cherries and ladders go), just under a tenth of a large tree
+			k := len(tips)/10 - 1
+			if k < 5 {
+				k = 5
+			}
+			rm = append([]string{}, tips[2*c.Algo:2*c.Algo+k]...)
+		}
+		if err := t.RemoveTips(c.Flag, rm...); err != nil {
 			return "", err
 		}
 		return t.Newick(), nil
@@ -433,11 +448,18 @@ func firstDiff(a, b string) string {
 func TestC18Lib(t *testing.T) {
 	h.Run(t, h.Spec[LibCase]{
 		Property: "C18", Name: "lib", Quick: 4000, Thorough: 160000,
-		Rule: "25 library scenarios (4 generators, Resolve, ShuffleTips, RotateInternalNodes, ParsimonyAcr x 3 algorithms x random resolution, ParsimonyAsr on nucleotide alignments and on protein alignments containing X, WriteNexus +-translate, WritePhyloXML, Rename, RenameAuto, Consensus, ToDistanceMatrix, CutEdgesMaxLength, TBE with raw tree and log tables, FBP, RemoveTips, RerootOutGroup, collapse, Clone/Nexus) on generated trees with >= 12 tips, each performed 4 times from scratch in one process with the same seed: all results byte-identical; non-trivial = every case (the result depends on the generated input)",
+		Rule: "25 library scenarios (4 generators, Resolve, ShuffleTips, RotateInternalNodes, ParsimonyAcr x 3 algorithms x random resolution, ParsimonyAsr on nucleotide alignments and on protein alignments containing X, WriteNexus +-translate, WritePhyloXML, Rename, RenameAuto, Consensus, ToDistanceMatrix, CutEdgesMaxLength, TBE with raw tree and log tables, FBP, RemoveTips, RerootOutGroup, collapse, Clone/Nexus) on generated trees with 12-18 tips (one case in twelve 101-150 tips), freshly parsed or already indexed, each performed 4 times from scratch in one process with the same seed: all results byte-identical; non-trivial = every case (the result depends on the generated input)",
 		Gen: func(t *rapid.T, thorough bool) LibCase {
 			c := LibCase{Scenario: rapid.SampledFrom(scenarios).Draw(t, "scenario"), Seed: rapid.Int64Range(0, 1<<40).Draw(t, "seed"), Flag: rapid.Bool().Draw(t, "flag"), Algo: rapid.IntRange(0, 2).Draw(t, "algo")}
 			n := rapid.IntRange(12, 18).Draw(t, "n")
+			if lg := rapid.IntRange(0, 11).Draw(t, "large"); (lg == 7 || (lg%2 == 1 && c.Scenario == "remove-tips")) && c.Scenario != "asr-nucl" && c.Scenario != "asr-protein" {
+				n = rapid.IntRange(101, 150).Draw(t, "nlarge") // shortcuts for large inputs
+			}
+			c.Indexed = rapid.Bool().Draw(t, "indexed")
 			o := gen.Opts{MinTips: n, MaxTips: n, Rooted: -1, MaxDeg: 5, Lens: gen.All, LenVals: gen.Arbitrary, Sups: gen.Mixed}
+			if n > 100 && rapid.Bool().Draw(t, "binarylarge") {
+				o.MaxDeg = 2
+			}
 			if c.Scenario == "tbe" || c.Scenario == "fbp" || c.Scenario == "consensus" {
 				o.Rooted = 0
 			}
@@ -466,6 +488,9 @@ func TestC18Lib(t *testing.T) {
 		Check: checkLib,
 		Classify: func(c LibCase) (bool, []string) {
 			l := []string{"scenario:" + c.Scenario}
+			if len(c.Trees) > 0 && len(c.Trees[0].Tips()) > 100 {
+				l = append(l, "tips>100")
+			}
 			if c.Scenario == "asr-protein" && strings.Contains(strings.Join(c.States, ""), "X") {
 				l = append(l, "protein-alignment-with-X")
 			}
